@@ -91,6 +91,16 @@ Proof.
       rewrite <- app_assoc. reflexivity.
 Qed.
 
+(** a yield in front: the loop re-invokes on what the cursor has not passed *)
+Lemma drive_yield f (s : N) (rest : list N) q x es yc q' adv x' :
+  eval D exec evalt (step_tree d q s) s x = Some (es, LRet (RYield yc) q' adv, x') ->
+  drivek (S f) (s :: rest) q x =
+  option_map (fun t => map item_of es ++ IRet (RYield yc) :: t) (drivek f (if adv then rest else s :: rest) q' x').
+Proof.
+  intros Ev. cbn [drivek Sem.feed_go]. rewrite Ev. cbn [f_res f_q f_x f_consumed f_evs app].
+  destruct adv; reflexivity.
+Qed.
+
 Definition drive_go_stmt (f : nat) (bs : list N) : Prop :=
   forall q x tr K c, f <= c -> f <= K -> drivek f bs q x = Some tr ->
   match bs with
@@ -252,11 +262,11 @@ Qed.
 (** at the end of input nothing is consumed and no cursor is advanced *)
 Definition leaf_end_ok (l : leaf) : bool := match l with LConsume _ => false | LRet _ _ adv => negb adv end.
 
-Lemma epilogue_end rec src t qc : (forall q, tree_all leaf_end_ok (rec q) = true) ->
-  tree_all leaf_end_ok (epilogue d rec src sym_end t qc false) = true.
+Lemma epilogue_end rec src t qc brk : (forall q, tree_all leaf_end_ok (rec q) = true) ->
+  tree_all leaf_end_ok (epilogue d rec src sym_end t qc false brk) = true.
 Proof.
   intros Hr. unfold epilogue. destruct (t_fall t).
-  - destruct (t_tgt t); [apply Hr | reflexivity].
+  - destruct (brk || match t_tgt t with Some _ => true | None => false end); [apply Hr | reflexivity].
   - destruct (immediate_done d t); [reflexivity|]. reflexivity.
 Qed.
 
